@@ -45,6 +45,7 @@ def run(prog, chk):
         "composites get a master wherever a decomposed component has one: location closure is transitive (R09.7, shared with C13)",
         "the instantiator's cached per-glyph models are dropped whenever a step changed the glyph sets: unconditional clear in replace_source_layers, refresh under every step's 'modified' verdict (R09.8)",
         "interpolatable OTF masters are compiled with CFFOptimization.NONE whatever the compiler's own option says: no per-master charstring specialisation (R09.9, shared with C12)",
+        "per-run accumulators of an interpolatable filter are per master inside the loop over the glyph sets, or reviewed as describing all masters at once (R09.10, shared with C02 / C15)",
     ]
     chk.not_decided += ["that cu2qu yields equal segment counts for all masters (fontTools)", "point compatibility of the output itself", "custom filters supplied by the caller"]
     chk.guard(r091, prog, chk)
@@ -56,6 +57,7 @@ def run(prog, chk):
     chk.guard(r098, prog, chk)
     chk.guard(c13.r135, prog, chk, "R09.7")
     chk.guard(c12.masters_force_none, prog, chk, "R09.9")
+    chk.guard(check_master_isolation, prog, chk, "R09.10")
 
 
 def _is_all_glyphsets(e: ast.AST) -> bool:
@@ -422,7 +424,75 @@ def r098(prog, chk):
     chk.minimum("R09.8", 8)
 
 
+
+# ----------------------------------------------------------------------------- R09.10
+SHARED_ACROSS_MASTERS_OK = {
+    "modified": "the set of changed glyph NAMES is one per run by design (a glyph changed in any master is reported once)",
+    "componentLocations": "memo of source LOCATIONS per glyph name; it describes all masters at once and is not per-master data",
+}
+
+
+def _empty_container(v: ast.AST) -> bool:
+    if isinstance(v, (ast.Dict, ast.List, ast.Set)):
+        return not (v.keys if isinstance(v, ast.Dict) else v.elts)
+    if isinstance(v, ast.Call) and A.callee_name(v) in ("set", "dict", "list", "OrderedDict", "defaultdict", "Counter", "deque") and not (v.args and A.callee_name(v) != "defaultdict"):
+        return True
+    return False
+
+
+def check_master_isolation(prog, chk, rule):
+    """Per-run accumulators of an interpolatable filter (containers created empty in set_context) are either one per
+    master (indexed by the master loop's variables wherever the loop over the glyph sets uses them) or on the
+    reviewed list: a name-keyed accumulator shared by all masters lets the first master decide for the others."""
+    ix = prog.ix
+    n = 0
+    for ci in [c for c in ix.subclasses(BASE_IFILTER)] + [ix.get_class(BASE_IFILTER)]:
+        accs = {}
+        for k in ix.mro(ci) if hasattr(ix, "mro") else [ci]:
+            sc = k.methods.get("set_context")
+            if sc is None:
+                continue
+            for st in A.stmts_of(sc.node):
+                if isinstance(st, ast.Assign) and isinstance(st.targets[0], ast.Attribute) and (_empty_container(st.value) or (
+                        isinstance(st.value, ast.ListComp) and _empty_container(st.value.elt))):
+                    base = st.targets[0].value
+                    if T(base) == "self.context" or (isinstance(base, ast.Name) and any(
+                            d.value is not None and ("set_context" in T(d.value) or T(d.value) == "self.context") for d in prog.reaching(sc, base.id, base))):
+                        accs[st.targets[0].attr] = (k, st)
+        for m in ci.methods.values():
+            loops = [l for l in A.body_nodes(m.node) if isinstance(l, ast.For) and any(isinstance(x, ast.Attribute) and x.attr == "glyphSets" for x in ast.walk(l.iter))]
+            for l in loops:
+                lv = set(A.target_names(l.target))
+                for node in A.walk_local(l):
+                    name = None
+                    if isinstance(node, ast.Attribute) and node.attr in accs and (T(node.value) == "self.context" or T(node.value).endswith("context") or T(node.value) == "ctx"):
+                        name = node.attr
+                    elif isinstance(node, ast.Name) and isinstance(node.ctx, ast.Load):
+                        for d in prog.reaching(m, node.id, node):
+                            v, how = d.element()
+                            if how is None and isinstance(v, ast.Attribute) and v.attr in accs and T(v.value).endswith("context"):
+                                name = v.attr
+                    if name is None or name in SHARED_ACROSS_MASTERS_OK:
+                        continue
+                    par = ix.parent(node)
+                    ok = isinstance(par, ast.Subscript) and par.value is node and any(isinstance(x, ast.Name) and x.id in lv for x in ast.walk(par.slice))
+                    n += 1
+                    chk.ob(rule, f"{m.short}|{A.keytext(m.node, node)}|per-run accumulator is per master inside the master loop", ok, where(m, node), detail=f"context.{name}",
+                           message=f"{m.short}: the accumulator context.{name} (created empty in {accs[name][0].name}.set_context) is shared by all masters inside the loop over the glyph sets: "
+                                   f"what the first master stores under a glyph name is reused for the others")
+        # a new accumulator that is never indexed per master and is used by per-master helpers
+    for name, why in SHARED_ACROSS_MASTERS_OK.items():
+        chk.ob(rule, f"reviewed shared accumulator|{name}", True, "Lib/ufo2ft/filters/base.py", detail=why, nontrivial=False)
+    chk.minimum(rule, 3)
+
+
 MUTANTS = [
+    M("anchor propagation: one 'processed' set for all masters", "ufo2ft/filters/propagateAnchors.py", "PropagateAnchorsIFilter.filter",
+      "self.context.processed[i]", "self.context.processed", rule="R09.10",
+      also=(("ufo2ft/filters/propagateAnchors.py", "PropagateAnchorsIFilter.set_context", "ctx.processed = [set() for _ in range(len(ctx.glyphSets))]", "ctx.processed = set()"),)),
+    M("name-keyed memo shared by all masters (seeded C15d shape)", "ufo2ft/filters/flattenComponents.py", "FlattenComponentsIFilter.filter",
+      "_flattenGlyphComponents(glyph, interpolatedLayer or glyphSet)", "_flattenGlyphComponents(glyph, interpolatedLayer or glyphSet, self.context.flattened)", rule="R09.10",
+      also=(("ufo2ft/filters/flattenComponents.py", "FlattenComponentsIFilter", "<add-method>", "def set_context(self, *args, **kwargs):\n    ctx = super().set_context(*args, **kwargs)\n    ctx.flattened = {}\n    return ctx\n"),)),
     M("OTF masters inherit the compiler's optimizeCFF (seeded C09d / C12d)", "ufo2ft/_compilers/interpolatableOTFCompiler.py", "InterpolatableOTFCompiler.compileOutlines",
       'kwargs["optimizeCFF"] = CFFOptimization.NONE', "pass", rule="R09.9"),
     M("instantiator keeps its cached glyph models when handed the same layer objects (seeded C09c)", "ufo2ft/instantiator.py", "Instantiator.replace_source_layers",
